@@ -233,7 +233,7 @@ def run(ctx, C18):
         new = inst in NEW
         S = fields(inst, False)
         attrs = T.attrs_arg(inst)
-        vs = vectors(ctx, rng, S, ctx.scale(60, 256), ctx.scale(70, 600)) if new else vectors(ctx, rng, S, ctx.scale(20, 64), ctx.scale(25, 200))
+        vs = vectors(ctx, rng, S, ctx.scale(110, 256), ctx.scale(130, 600)) if new else vectors(ctx, rng, S, ctx.scale(40, 64), ctx.scale(50, 200))
         for mult in vs:
             for order in C18.orders(rng, mult, ctx.scale(3, 8) if new else 1):
                 doc, ids = make_doc(C18, rng, inst, order, rng.choice([0, 0, 1, 2, 3]), 0.02)
@@ -305,7 +305,7 @@ def run_perm(ctx, C18):
     rng = ctx.rng
     cases, groups = [], []
     insts = NEW + list(C18.STRUCTS)
-    for _ in range(ctx.scale(260, 3000)):
+    for _ in range(ctx.scale(700, 3000)):
         inst = rng.choice(insts)
         S = fields(inst, False)
         tokened = S[0]["token"] is not None
@@ -366,7 +366,7 @@ def run_intkeys(ctx, C18):
     rng = ctx.rng
     cases, meta = [], []
     insts = [i for i in NEW + list(C18.STRUCTS)]
-    for _ in range(ctx.scale(120, 1200)):
+    for _ in range(ctx.scale(200, 1200)):
         inst = rng.choice(insts)
         S = fields(inst, False)
         occ = [i for i, f in enumerate(S) for _ in range(1 if f["dup"] != "dup" else rng.choice([0, 1, 2]))]
